@@ -148,6 +148,11 @@ def main():
             mesh = M.mesh_2d(et, polygon=poly, h=1.2)
             X0 = mesh.coord.copy()
             base_normals = {id_: np.asarray(g.Get_normals_e_pg("mass")).copy() for id_, g in enumerate(mesh.Get_list_groupElem(1))}
+            try:
+                # a point is located BEFORE the mesh is moved: whatever the search structures keep must follow the move
+                mesh.Evaluate_dofsValues_at_coordinates(X0[mesh.Get_list_groupElem(2)[0].connect[0]].mean(0)[None, :], X0[:, 0].copy())
+            except Exception:  # noqa: BLE001
+                pass
             mover(mesh)
             ident = dict(elemType=et, polygon=poly, move=mk)
             res.case((et, mk, "measure"))
@@ -206,6 +211,21 @@ def main():
                 res.fail(f"point location raises elem={et}", f"{type(ex).__name__}: {str(ex)[:150]}", dict(ident, points=len(pts)))
                 continue
             want = p(pts)
+            if len(mesh.Get_list_groupElem(2)) == 1:
+                # the optional `elements` argument (elements that may contain the points) in any listing order
+                for oname, els in (("reversed", np.arange(g.Ne)[::-1]), ("shuffled", np.array(rng.sample(range(g.Ne), g.Ne))), ("listed twice", np.r_[np.arange(g.Ne), np.arange(g.Ne)])):
+                    res.case((et, mk, "location", "elements " + oname))
+                    try:
+                        gote = np.asarray(mesh.Evaluate_dofsValues_at_coordinates(pts, vals, elements=els)).ravel()
+                    except Exception as ex:  # noqa: BLE001
+                        res.fail(f"point location raises with elements={oname}", f"{type(ex).__name__}: {str(ex)[:150]}", dict(ident, elements=oname))
+                        continue
+                    erre = np.abs(gote - want) / (1 + np.abs(want).max())
+                    if erre.max() > tol:
+                        i = int(erre.argmax())
+                        res.fail(f"point evaluation with the elements argument listed {oname}", f"degree-{deg} field evaluated at a located {kinds[i]} point with elements={oname} differs by {erre.max():.2e} (relative); the default search is right",
+                                 dict(ident, degree=deg, elements=oname, point=pts[i].tolist()))
+                        break
             res.case((et, mk, "location"))
             for nm, arr in (("batch", got), ("single", one)):
                 err = np.abs(arr - want) / (1 + np.abs(want).max())
@@ -234,6 +254,10 @@ def main():
                     c0 = None
                 X0 = mesh.coord.copy()
                 base_normals = [np.asarray(g.Get_normals_e_pg("mass")).copy() for g in mesh.Get_list_groupElem(2)]
+                try:
+                    mesh.Evaluate_dofsValues_at_coordinates(X0[mesh.Get_list_groupElem(3)[0].connect[0]].mean(0)[None, :], X0[:, 0].copy())
+                except Exception:  # noqa: BLE001
+                    pass
                 mover(mesh)
                 ident = dict(elemType=et, shape=shape, move=mk)
                 res.case((et, mk, shape, "measure"))
@@ -285,6 +309,35 @@ def main():
                         else:
                             res.fail(f"point evaluation elem={et} {nm} point={kinds[i]}", f"degree-{deg} field evaluated at a located {kinds[i]} point differs by {err.max():.2e} (relative)", dict(ident, degree=deg, point=pts[i].tolist()))
                         break
+
+    # ---------------- locate, move, locate again on the same (fine) mesh ----------------
+    for et in (["TRI3", "QUAD4", "TETRA4"] if not thorough else ["TRI3", "TRI6", "QUAD4", "TETRA4", "HEXA8"]):
+        dim_ = M.dim_of(et)
+        meshf = M.mesh_2d(et, 2.0, 1.0, 0.15) if dim_ == 2 else M.mesh_3d(et, 2.0, 1.0, 1.5, 0.3, 5)
+        gf = meshf.Get_list_groupElem(dim_)[0]
+        pf = Poly(rng, 1, dim_)
+        cells = rng.sample(range(gf.Ne), min(gf.Ne, 40))
+
+        def centroids():
+            return np.array([meshf.coord[gf.connect[e]][:gf.Nvertex].mean(0) for e in cells])
+        steps = [("before any motion", lambda: None), ("after Rotate", lambda: meshf.Rotate(73.0, (0.3, -0.2, 0.1 if dim_ == 3 else 0.0), (0, 0, 1) if dim_ == 2 else (1, 2, 3))),
+                 ("after Rotate + Translate", lambda: meshf.Translate(1.5, -0.75, 0.5 if dim_ == 3 else 0.0)), ("after Rotate + Translate + Symmetry", lambda: meshf.Symmetry((0.1, 0.2, 0.0), (1, 0.5, 0.25 if dim_ == 3 else 0.0)))]
+        for sname, act in steps:
+            act()
+            ptsf = centroids()
+            valsf = pf(meshf.coord)
+            res.case((et, "locate-move-locate", sname))
+            res.count("locate-move-locate")
+            try:
+                gotf = np.asarray(meshf.Evaluate_dofsValues_at_coordinates(ptsf, valsf)).ravel()
+            except Exception as ex:  # noqa: BLE001
+                res.fail(f"point location raises {sname} elem={et}", f"{type(ex).__name__}: {str(ex)[:150]}", dict(elemType=et, step=sname))
+                break
+            errf = np.abs(gotf - pf(ptsf)).max() / (1 + np.abs(pf(ptsf)).max())
+            if errf > 1e-6:
+                res.fail(f"point evaluation on a mesh moved after an earlier point location elem={et}", f"{sname}: a linear field evaluated at {len(ptsf)} element centroids differs by {errf:.2e} (relative); a point had been located on this mesh before it was moved",
+                         dict(elemType=et, step=sname, Ne=int(gf.Ne)))
+                break
 
     # ---------------- boundary rebuilt from the `faces` tables (MeshIO.Surface_reconstruction) ----------------
     from EasyFEA import MeshIO
@@ -359,7 +412,7 @@ def main():
         try:
             both = _Mesh.Merge([right, left])
         except Exception as ex:  # noqa: BLE001
-            res.notes.append(f"Mesh.Merge of a part and its mirror image raised {type(ex).__name__} for {et}")
+            res.fail("Mesh.Merge of a part and its mirror image raises", f"{type(ex).__name__}: {str(ex)[:120]}", dict(elemType=et))
             continue
         A0, _ = shoelace(halfpoly)
         res.case((et, "merged-mirror"))
